@@ -55,5 +55,8 @@ package localfs
 //@   ensures[C20] @stable-for-known-pairs !likelyOK(uint64(stat.Dev), stat.Ino) && old(smhas(qids, keyOf(uint64(stat.Dev), stat.Ino))) ==> result0 == unbox(old(smget(qids, keyOf(uint64(stat.Dev), stat.Ino))), uint64)
 //@   ensures[C20] @recorded !likelyOK(uint64(stat.Dev), stat.Ino) ==> smhas(qids, keyOf(uint64(stat.Dev), stat.Ino)) && typeis(smget(qids, keyOf(uint64(stat.Dev), stat.Ino)), uint64) && unbox(smget(qids, keyOf(uint64(stat.Dev), stat.Ino)), uint64) == result0
 //@   ensures[C20] @fallback-has-bit-63 !likelyOK(uint64(stat.Dev), stat.Ino) ==> result0 > (1<<63)
+// concurrent first lookups of one pair must agree: the entry is created by the
+// atomic insert-if-absent, whose winner every caller returns
+//@   ensures[C20] @new-pairs-are-inserted-atomically !likelyOK(uint64(stat.Dev), stat.Ino) && !old(smhas(qids, keyOf(uint64(stat.Dev), stat.Ino))) ==> ncalls("(*sync.Map).LoadOrStore") == 1
 //@   ensures[C20] @other-pairs-untouched forall(k, any, k != keyOf(uint64(stat.Dev), stat.Ino) ==> smhas(qids, k) == old(smhas(qids, k)) && smget(qids, k) == old(smget(qids, k)))
 //@   maypanic
